@@ -756,6 +756,23 @@ func ruleU5(r *Run) {
 			key := "element type identity in " + p.DeclName(fd)
 			parents := parentMap(fd.Body)
 			identity := false
+			// the element type may be worked out by a helper (t := commonType(values)): the comparison is looked for there
+			if def, ok := localDefs(info, fd.Body)[t]; ok {
+				if hc, ok := ast.Unparen(def).(*ast.CallExpr); ok {
+					if hd, hpkg := p.calleeDecl(info, hc); hd != nil && hpkg == pkg {
+						ast.Inspect(hd.Body, func(m ast.Node) bool {
+							if b, ok := m.(*ast.BinaryExpr); ok && (b.Op == token.EQL || b.Op == token.NEQ) && isReflectType(b.X) && isReflectType(b.Y) {
+								xn, _ := ast.Unparen(b.X).(*ast.Ident)
+								yn, _ := ast.Unparen(b.Y).(*ast.Ident)
+								if (xn == nil || xn.Name != "nil") && (yn == nil || yn.Name != "nil") {
+									identity = true
+								}
+							}
+							return true
+						})
+					}
+				}
+			}
 			ast.Inspect(fd.Body, func(m ast.Node) bool {
 				b, ok := m.(*ast.BinaryExpr)
 				if !ok || (b.Op != token.EQL && b.Op != token.NEQ) || b.Pos() > sliceOf.Pos() {
@@ -1599,4 +1616,119 @@ func mentionsAny(info *types.Info, e ast.Node, objs map[types.Object]bool) bool 
 		return !found
 	})
 	return found
+}
+
+// ---------------------------------------------------------------------------------------------------
+// R6 what counts as a temporary accept error
+
+func init() {
+	register("R6", "core.IsTemporaryError, which the accept loops of the socket and websocket servers ask before they give up, answers from the error's Temporary() method alone: every return of the function is the constant false or contains a call of Temporary(), and none is decided by another method of the error (Timeout()). A transient accept failure - EMFILE, ECONNABORTED - is Temporary but not a Timeout; if it is classed as permanent the accept loop ends, Serve returns and every established connection of the server is cancelled because one client's connect failed", 1, ruleR6)
+}
+
+func ruleR6(r *Run) {
+	p := r.P
+	fd, pkg := p.DeclOf("rpc/core", "IsTemporaryError")
+	key := "rpc/core.IsTemporaryError answers from Temporary() alone"
+	if fd == nil {
+		r.Undec(key, 0, "not found")
+		return
+	}
+	info := pkg.TypesInfo
+	bad := ""
+	nret := 0
+	ast.Inspect(fd.Body, func(m ast.Node) bool {
+		ret, ok := m.(*ast.ReturnStmt)
+		if !ok || len(ret.Results) != 1 {
+			return true
+		}
+		nret++
+		if tv, ok := info.Types[ret.Results[0]]; ok && tv.Value != nil && tv.Value.ExactString() == "false" {
+			return true
+		}
+		hasTemp := false
+		other := ""
+		ast.Inspect(ret.Results[0], func(q ast.Node) bool {
+			if c, ok := q.(*ast.CallExpr); ok {
+				switch nm := methodName(c); nm {
+				case "Temporary":
+					hasTemp = true
+				case "":
+				default:
+					if sel, ok := c.Fun.(*ast.SelectorExpr); ok {
+						if s := info.Selections[sel]; s != nil && s.Kind() == types.MethodVal {
+							other = nm
+						}
+					}
+				}
+			}
+			return true
+		})
+		if !hasTemp || other != "" {
+			bad = "the return at " + p.Rel(ret.Pos()) + " is decided by " + other + "() / not by Temporary()"
+		}
+		return true
+	})
+	if nret == 0 {
+		r.Undec(key, fd.Pos(), "no return with a value")
+		return
+	}
+	r.Check(bad == "", key, fd.Pos(), "every return asks Temporary()", bad+": a transient accept error that is Temporary but not of that other kind ends the accept loop, and with it the server and all its connections")
+}
+
+// ---------------------------------------------------------------------------------------------------
+// G48 a reset decoder holds no references
+
+func init() {
+	register("G48", "Decoder.Reset, which every change of input and of mode goes through, empties the reference table unconditionally: the call that clears it (a Reset of the reference holder) is a statement of the function's own block, not inside a condition on the mode - a decoder that has just been SWITCHED to simple mode otherwise keeps the references of the input it read before, and since the reference item is resolved in simple mode too, `r0;` of the next input yields a value of the previous one (C14: no reference table of one use is visible in the next)", 1, ruleG48)
+}
+
+func ruleG48(r *Run) {
+	p := r.P
+	fd, pkg := p.DeclOf("io", "Decoder.Reset")
+	key := "io.Decoder.Reset empties the reference table unconditionally"
+	if fd == nil {
+		r.Undec(key, 0, "not found")
+		return
+	}
+	info := pkg.TypesInfo
+	referF := p.LookupField("io", "Decoder", "refer")
+	if referF == nil {
+		r.Undec(key, fd.Pos(), "Decoder.refer not found")
+		return
+	}
+	found, uncond := false, false
+	parents := parentMap(fd.Body)
+	ast.Inspect(fd.Body, func(m ast.Node) bool {
+		c, ok := m.(*ast.CallExpr)
+		if !ok {
+			return true
+		}
+		sel, ok := ast.Unparen(c.Fun).(*ast.SelectorExpr)
+		if !ok || fieldOf(info, sel.X) != referF {
+			return true
+		}
+		found = true
+		if es, ok := parents[c].(*ast.ExprStmt); ok && parents[es] == ast.Node(fd.Body) {
+			uncond = true
+		}
+		return true
+	})
+	// or: dec.refer = decoderRefer{} / dec.refer.ref = dec.refer.ref[:0] as a top-level statement
+	for _, s := range fd.Body.List {
+		if as, ok := s.(*ast.AssignStmt); ok {
+			for _, l := range as.Lhs {
+				if fieldOf(info, l) == referF {
+					found, uncond = true, true
+				}
+				if sel, ok := ast.Unparen(l).(*ast.SelectorExpr); ok && fieldOf(info, sel.X) == referF {
+					found, uncond = true, true
+				}
+			}
+		}
+	}
+	if !found {
+		r.Viol(key, fd.Pos(), "Reset does not touch the reference table at all")
+		return
+	}
+	r.Check(uncond, key, fd.Pos(), "cleared by a statement of the function's own block", "the reference table is cleared only under a condition: in the other case the references of the previous input stay resolvable")
 }
